@@ -32,6 +32,7 @@ Definition encode_orig (c : cmd) : outcome (list N) :=
          else if (row <? 0)%Z then let* n := i32_neg 86 row in Ok (CSI ++ print n ++ [65])
          else Ok []) in
       Ok (h ++ v)
+  | Char c => Ok (utf8_enc c)                        (* the bare character, also ESC / C1 introducers *)
   | EraseChars count => Ok (CSI ++ print count ++ [88])
   | Scroll count =>
       if (count <? 0)%Z then let* n := i32_neg 205 count in Ok (CSI ++ print n ++ [84])
